@@ -107,6 +107,43 @@ struct Pending {
     desc: &'static str,
     oracles: bool,
     consistent: bool,
+    idem: bool,
+}
+
+/// The gaps on which a second run is required to reproduce the first one's text: printable ASCII, blank,
+/// tab and line feed only (a lone CR or a Unicode blank in front of a comment is taken for code on the
+/// comment's line: finding MISSED-IDEM-UBLANK), and no block comment followed on its line by another
+/// comment (findings MISSED-IDEM-SAMELINE, MISSED-IDEM-TRAIL).
+fn idem_family(gap: &str) -> bool {
+    if !gap.chars().all(|c| c == ' ' || c == '\t' || c == '\n' || (c.is_ascii_graphic())) {
+        return false;
+    }
+    let b = gap.as_bytes();
+    let mut i = 0;
+    while i + 1 < b.len() {
+        if b[i] == b'*' && b[i + 1] == b'/' {
+            let mut j = i + 2;
+            while j < b.len() && (b[j] == b' ' || b[j] == b'\t') {
+                j += 1;
+            }
+            if j < b.len() && b[j] == b'/' {
+                return false;
+            }
+        }
+        i += 1;
+    }
+    true
+}
+
+/// The call a second run of the formatter makes at the same place: the text in front of the gap is the
+/// buffer, the gap is what the first run wrote.
+fn second_call(c: &Call, first: &hm::After) -> Option<Call> {
+    let valid = c.last_pos <= c.end && c.end <= c.text.len() && c.text.is_char_boundary(c.last_pos) && c.text.is_char_boundary(c.end);
+    if !valid || !first.buffer.starts_with(&c.buffer) || !idem_family(&c.text[c.last_pos..c.end]) {
+        return None;
+    }
+    let delta = &first.buffer[c.buffer.len()..];
+    Some(Call { text: format!("{}{}{}", c.buffer, delta, &c.text[c.end..]), pad: c.pad, buffer: c.buffer.clone(), indent: c.indent, last_pos: c.buffer.len(), end: c.buffer.len() + delta.len(), entry: c.entry, cfg: c.cfg })
 }
 
 struct Sink<'a> {
@@ -116,19 +153,14 @@ struct Sink<'a> {
     oracles: bool,
     /// the (prefix, buffer) pair is what a run of the formatter produces: the blank-line oracle applies
     consistent: bool,
+    /// also run the writer on its own output (consistent contexts, blank gaps)
+    idem: bool,
     pending: Vec<Pending>,
-}
-
-/// The shape of finding C08-MISSED-2024 (see `probes`): under style edition 2024 a comment that follows
-/// code on its line and whose next line starts with blanks is handed to `rewrite_comment` with those
-/// blanks, which answers with an empty first line.
-fn finding_2024_shape(c: &Call, snippet: &str) -> bool {
-    c.cfg.ed2024 && (snippet.contains("\n ") || snippet.contains("\n\t"))
 }
 
 impl<'a> Sink<'a> {
     fn put(&mut self, c: &Call, _k: &Config) {
-        self.pending.push(Pending { call: c.clone(), desc: self.desc, oracles: self.oracles, consistent: self.consistent });
+        self.pending.push(Pending { call: c.clone(), desc: self.desc, oracles: self.oracles, consistent: self.consistent, idem: self.idem });
         if self.pending.len() >= 200_000 {
             self.flush();
         }
@@ -137,8 +169,29 @@ impl<'a> Sink<'a> {
     /// Runs the real code on the pending calls (in parallel) and turns them into cases.
     fn flush(&mut self) {
         let pending = std::mem::take(&mut self.pending);
-        let reals: Vec<Option<hm::After>> = par_map(&pending, |p| run_real(&p.call, &mk_config(p.call.cfg)));
-        for (p, real) in pending.iter().zip(reals.into_iter()) {
+        let reals: Vec<(Option<hm::After>, Option<(Call, Option<hm::After>)>)> = par_map(&pending, |p| {
+            let k = mk_config(p.call.cfg);
+            let first = run_real(&p.call, &k);
+            let second = match &first {
+                Some(a) if p.idem && p.consistent && p.oracles && p.call.cfg.lower == 0 => second_call(&p.call, a).filter(|c2| is_blank_gap(&c2.text[c2.last_pos..c2.end])).map(|c2| {
+                    let r = run_real(&c2, &k);
+                    (c2, r)
+                }),
+                _ => None,
+            };
+            (first, second)
+        });
+        for (p, (real, second)) in pending.iter().zip(reals.into_iter()) {
+            if let (Some(a), Some((c2, r2))) = (&real, &second) {
+                self.o.direct_evals += 1;
+                let same = r2.as_ref().map(|b| b.buffer == a.buffer).unwrap_or(false);
+                if !same {
+                    let sig = if r2.is_none() { "missed:second-run-panics" } else { "missed:second-run-differs" };
+                    self.o.direct_failures.push(serde_json::json!({"sig": sig, "first": format!("{:?}", p.call), "second": format!("{:?}", c2), "wrote_first": a.buffer, "wrote_second": r2.as_ref().map(|b| b.buffer.clone())}));
+                } else if a.buffer != p.call.buffer {
+                    self.o.direct_distinct += 1;
+                }
+            }
             self.emit(p, real);
         }
     }
@@ -183,7 +236,7 @@ impl<'a> Sink<'a> {
             self.o.count("missed:blank-gap");
             self.o.push("oracle", "ms.oracle.comments", format!("ms.oracle.comments {} {}", es, ed), "ok".into(), p.desc.into(), snippet.contains('/'));
             self.o.push("oracle", "ms.oracle.only", format!("ms.oracle.only {} {}", es, ed), "ok".into(), p.desc.into(), snippet.contains('/'));
-            if p.consistent && c.cfg.lower <= c.cfg.upper && !finding_2024_shape(c, snippet) {
+            if p.consistent && c.cfg.lower <= c.cfg.upper {
                 self.o.push("oracle", "ms.oracle.clamp", format!("ms.oracle.clamp {} {} {}", enc_str(&c.buffer), ed, c.cfg.upper), "ok".into(), p.desc.into(), snippet.contains('\n'));
             }
         } else {
@@ -252,18 +305,23 @@ fn cfg_product() -> Vec<Cfg> {
 
 pub fn cases(o: &mut Outcome, rng: &mut Rng, thorough: bool) {
     let t0 = std::time::Instant::now();
-    let mut k = Sink { o, desc: "exhaustive", oracles: true, consistent: true, pending: vec![] };
+    let mut k = Sink { o, desc: "exhaustive", oracles: true, consistent: true, idem: false, pending: vec![] };
 
     // (a1) short gaps under the whole configuration product, realistic contexts, three indents
     let n_full = if thorough { 3 } else { 2 };
     let cfgs = cfg_product();
     let configs: Vec<Config> = cfgs.iter().map(|c| mk_config(*c)).collect();
     let gaps_full = gaps_upto(n_full, PIECES);
+    let few: Vec<usize> = cfgs.iter().enumerate().filter(|(_, c)| (c.lower, c.upper) == (0, 1) || (c.lower, c.upper, c.hard_tabs) == (2, 0, false)).map(|(i, _)| i).collect();
     for (ci, cfg) in cfgs.iter().enumerate() {
         for g in &gaps_full {
             for (xi, (pre, buf, cons)) in CONTEXTS.iter().enumerate() {
+                // the contexts a run of the formatter cannot be in: a few configurations only
+                if !*cons && !few.contains(&ci) {
+                    continue;
+                }
                 k.consistent = *cons;
-                let indents: &[(usize, usize)] = if xi < 4 { &[(0, 0), (4, 0), (8, 2)] } else { &[(4, 0)] };
+                let indents: &[(usize, usize)] = if (1..4).contains(&xi) { &[(4, 0), (8, 2)] } else if xi == 0 { &[(0, 0)] } else { &[(4, 0)] };
                 for &ind in indents {
                     for entry in 0..3u8 {
                         k.put(&call(pre, g, "z", buf, ind, entry, *cfg, 0), &configs[ci]);
@@ -276,6 +334,7 @@ pub fn cases(o: &mut Outcome, rng: &mut Rng, thorough: bool) {
     k.o.notes.push(format!("missed (a1): {} gaps x {} configurations in {:?}", gaps_full.len(), cfgs.len(), t0.elapsed()));
 
     // (a2) longer gaps under three base configurations
+    k.idem = true;
     let n_base = if thorough { 5 } else { 4 };
     let bases = [BASE, Cfg { hard_tabs: true, upper: 2, lower: 1, ..BASE }, Cfg { ed2024: true, upper: 0, ..BASE }];
     let base_configs: Vec<Config> = bases.iter().map(|c| mk_config(*c)).collect();
@@ -294,6 +353,7 @@ pub fn cases(o: &mut Outcome, rng: &mut Rng, thorough: bool) {
     k.flush();
     k.o.notes.push(format!("missed (a2): {} gaps in {:?}", gaps_base.len(), t0.elapsed()));
 
+    k.idem = false;
     // (a3) the corners of the configuration: narrow pages, indentation beyond the page (F1), tab_spaces 0,
     //      a text that does not start the source map
     let corner: Vec<Cfg> = vec![
@@ -341,6 +401,7 @@ pub fn cases(o: &mut Outcome, rng: &mut Rng, thorough: bool) {
     // (b) random longer gaps over the wider alphabet
     k.desc = "random";
     k.oracles = true;
+    k.idem = true;
     let all_pieces: Vec<&str> = PIECES.iter().chain(MORE.iter()).copied().collect();
     let blank_pieces: Vec<&str> = all_pieces.iter().copied().filter(|p| p.trim().is_empty() || p.starts_with("//") || p.starts_with("/*")).collect();
     let n_random = if thorough { 60000 } else { 6000 };
@@ -450,12 +511,36 @@ pub fn fixture_gaps() -> Vec<(String, String)> {
     set.into_iter().collect()
 }
 
+/// Enumerated, seed-independent probes: the shapes on which the missed-span writer is known not to
+/// reproduce its own output (`fails` expected, known findings), and the reproduction of the repaired
+/// defect (`fails` must stay false).  Whole programs through the real formatter.
+pub fn probes(o: &mut Outcome) {
+    use crate::pool::{self, Job, Status};
+    use serde_json::json;
+    let fmt = |src: &str, cfg: &[(&str, &str)]| pool::format_here(&Job { src: src.to_string(), cfg: cfg.iter().map(|(k, v)| (k.to_string(), v.to_string())).collect(), file_lines: None });
+    let twice = |o: &mut Outcome, id: &str, src: &str, what: &str| {
+        let r1 = fmt(src, &[]);
+        let r2 = fmt(&r1.out, &[]);
+        o.probes.push(json!({"id": id, "fails": r1.status == Status::Ok && r2.status == Status::Ok && r1.out != r2.out, "what": what, "detail": {"src": src, "first": r1.out, "second": r2.out}}));
+    };
+    twice(o, "MISSED-IDEM-SAMELINE", "fn a() {}\n/* a */ /* b */\nfn b() {}\n", "two comments on one line between items, the first a block comment: process_comment breaks the line behind the first and then writes the second as if it still followed code on that line (one blank in front, no indentation): `/* a */` newline ` /* b */`; a second run re-indents it");
+    twice(o, "MISSED-IDEM-TRAIL", "fn a() {} /* c */// c\n/* d */\nfn b() {}\n", "a block comment that trails code, directly followed by a line comment and, at the start of the next line, by another comment (one comment slice): the later lines are aligned with the first comment; a second run sees them as comments of their own and re-indents them");
+    twice(o, "MISSED-IDEM-UBLANK", "mod m {\u{2028}// c\n    fn a() {}\n}\n", "a Unicode blank other than space and tab (here U+2028; also a lone CR, U+00A0, U+3000) between `{` and a comment: process_comment looks for the last character that is not a space or a tab, finds the blank and takes the comment for one that trails code; the blank is dropped, and a second run moves the comment to its own line");
+    {
+        let src = "fn main() {\n    let x = 1; // c\n    /* d */\n    let y = 2;\n}\n";
+        let r = fmt(src, &[("style_edition", "2024")]);
+        let bad = r.status != Status::Ok || r.flags.iter().any(|b| *b) || r.out != src;
+        o.probes.push(json!({"id": "MISSED-FIX-2024", "fails": bad, "what": "style_edition=2024: a line comment that trails a statement, followed on the next line by an indented block comment, came back with a line of blanks between the two ('left behind trailing whitespace', exit 1): repaired by a fix: commit, must stay clean", "detail": {"src": src, "out": r.out, "flags": format!("{:?}", r.flags)}}));
+    }
+}
+
 pub fn run(tier: &str, seed: u64, out: &std::path::Path) -> i32 {
     let mut o = Outcome::new("MISSED", tier, seed);
     let mut rng = Rng::new(seed);
     let prev = std::panic::take_hook();
     std::panic::set_hook(Box::new(|_| {}));
     cases(&mut o, &mut rng, tier == "thorough");
+    probes(&mut o);
     std::panic::set_hook(prev);
     o.finish(out, jobs())
 }
